@@ -86,6 +86,7 @@ def run(ctx):
         pinned(ctx, vh)
         if os.environ.get("VERIF_ONLY_PINNED"):
             return
+        directed_memo_layouts(ctx, vh)
         for i in range(n_ws):
             root = ctx.scratch(f"ws{i}")
             ws = directed_editable_above(root, ctx.rng) if i == 1 else gen.gen_workspace(root, ctx.rng, allow_multiline=False, indirect_multi=True)
@@ -261,6 +262,37 @@ def judge_cols_only(ctx, ws, model, order, f, u, uu, actual_at):
                    "expected": sorted(exp) if exp else None, "actual": act, "level": "lsp"},
                   {"expected_kind": res_kind(res), "column": col, "usage_kind": u["kind"], "spec": ws.spec},
                   files=ws.files)
+
+
+def directed_memo_layouts(ctx, vh):
+    """import layouts in which a nested import walk is cut short (cycles, diamonds, plugin rings) with one entry conftest
+    per directory: the usages below every entry point are judged in every order of the entry points on one database - what
+    the walk for one directory memoised must not change the resolution below another"""
+    import itertools, shutil
+    from ..memo_layouts import layouts
+    from ..runner import write_tree
+    for lay in layouts():
+        for perm in itertools.permutations(lay["probes"]):
+            root = ctx.scratch("memo_" + lay["name"])
+            ws = gen.WS(root)
+            ws.files = dict(lay["files"])
+            ws.spec = {"depth": 1, "directed": lay["name"], "probe_order": list(perm)}
+            write_tree(root, ws.files)
+            model = ws.model()
+            db = vh.new_db()
+            vh.call(op="batch", cmds=[{"op": "analyze_fresh", "db": db, "path": ws.abs(r), "text": ws.files[r]} for r in sorted(ws.py_files())])
+            order = def_index(vh.call(op="raw", db=db))
+            for rel in perm:
+                f = ws.abs(rel)
+                for u in model.models[f].usages:
+                    def actual_at(col, f=f, u=u):
+                        a = vh.call(op="goto", db=db, path=f, line=u["line"] - 1, char=col)
+                        t = a.get("target")
+                        return (t["file"], t["line"]) if t else None
+                    judge_usage(ctx, ws, model, order, f, u, actual_at, "vh")
+            vh.call(op="drop_db", db=db)
+            shutil.rmtree(root, ignore_errors=True)
+        ctx.count("directed_memo_layouts")
 
 
 def pinned(ctx, vh):
